@@ -27,6 +27,31 @@ that is compared) does not depend on rounding.  The same holds for `wrap`: round
 point that lies exactly on a cell face to the opposite face, which changes neither the set of
 images nor their indices (accepted for the wrapped-points attribute check, see _check_attrs).
 
+Presentations (audit round 4; Periodic.tla, section PRESENTATIONS).  Every emitted case is handed to
+the class in every admissible presentation Periodic!PresOf names: base, none (realvecs=None), sim (real
+similarity x -> k x Q with a seeded Haar-random orthogonal Q, proper or improper, and k in [0.3, 3.3]:
+real-valued, generally oriented data), shift (centre 1000 / -777 / 513 cells away, every point moved by
+its own lattice translation - 41 i / -29 i cells when wrapped, one cell when not), basis (sheared,
+sign-changed basis of the same lattice), split (grid[K] for two complementary selections in all index
+forms, union of the two local grids), session (another query answered first by the same object; the
+query repeated; caller's arrays, earlier results and grid.points must not change), int / intvecs / f32 /
+argforms (integer arrays, float32 arrays, list / tuple / Python-scalar / 0-d centres, Python-int /
+NumPy-scalar / 0-d radii, strided and Fortran-ordered arrays, NumPy bool for wrap).  The presented
+configurations (shifted points, other basis, selections, earlier query) are computed by TLC
+(Emit_periodic); the harness only applies the inverse of the law's map (subtract T, undo k Q, map
+sub-grid indices back) and hands the result to the same judge.  All presentations of a case that give
+the same multiset are ONE observation for TLC, so a correct library costs no extra judging.  The laws
+behind the maps (SimLaw for the 2/8/48 signed permutations, ScaleLaw k = 2, ShiftLaw, BasisLaw,
+SplitLaw, SessionLaw, QueryKeepsGrid) are invariants checked by TLC for the definition AND the
+algorithm on every LawEvery-th observed case (thorough: and every LawEveryMC-th enumerated one).
+'sim' and 'f32' are admissible only when no image can lie on the sphere (2 r^2 odd, or inf): every image
+is then at least |r^2 - d^2| >= 1/2 (integer units) away from the sphere, rounding of the mapped data
+(<= 1e-13) or float32 fractional coordinates (<= 1e-6, relevant for the bounds only, see above) cannot
+change membership.  Back-mapped 'sim' positions must lie within SIM_TOL = 1e-6 of integer points:
+measured worst distance 2.9e-15 (quick), so > 8 orders of slack; a wrong lattice translation moves a
+position by >= 0.3 (smallest |k a_j|), a truncated centre loses / adds whole images.  Attribute
+tolerance for 'sim' is ATOL as below (measured 2.0e-14).
+
 Tolerances (attribute checks only; the property itself is judged on integers by TLC):
 recivecs/spacings/frac_intvls are compared with the specification's exact rationals with
 absolute tolerance 1e-9; measured worst deviation on the pinned tree 5.4e-15 (thorough tier,
@@ -49,7 +74,9 @@ from ..evidence import Report
 PROP = "C11"
 FAMS = ("L1", "L2", "L3")
 INVARIANTS = ("RecipIdentity RecipInSpan WrapInCell WrapIsTranslation NoWrapNoMove Complete Sound "
-              "ExactlyOnce AlgEqualsDecl NoLatticeIsPlainGrid RadiusZero ObsConforms Flags").split()
+              "ExactlyOnce AlgEqualsDecl NoLatticeIsPlainGrid RadiusZero ObsConforms Flags "
+              "SimLaw ScaleLaw ShiftLaw BasisLaw SplitLaw SessionLaw QueryKeepsGrid").split()
+CFG = "SPECIFICATION Spec\n" + "".join(f"INVARIANT {i}\n" for i in INVARIANTS)
 ATOL = 1e-9
 
 # Tier parameters: digit radices of the configuration numbers (meaning of the digits: Periodic.tla)
@@ -63,12 +90,14 @@ PARAMS = {
         InnerRadix={"L1": [2, 3, 5, 5], "L2": [2, 4, 2, 1, 2, 2, 4], "L3": [2, 6, 2, 1, 1, 2, 2, 2, 3]},
         RadList={"L1": [0, 2, 9, 33], "L2": [0, 2, 13], "L3": [2, 9]},   # r2x2 = 2 r^2; 2, 8, 18 = integer radii (images ON the sphere)
         sample={"L1": 1200, "L2": 1200, "L3": 900},
+        LawEvery=(8, 0),      # presentation laws on every 8th observed case
     ),
     "thorough": dict(
         CellRadix={"L1": [2, 9, 3, 3, 2, 2], "L2": [3, 5, 5, 5, 5], "L3": [4, 12, 3]},
         InnerRadix={"L1": [2, 5, 11, 8], "L2": [2, 6, 2, 1, 3, 2, 5], "L3": [2, 6, 2, 1, 1, 3, 2, 2, 4]},
         RadList={"L1": [0, 1, 2, 8, 19, 33, 61], "L2": [0, 2, 5, 13], "L3": [0, 2, 11]},
         sample={"L1": 17000, "L2": 17000, "L3": 17000},
+        LawEvery=(4, 97),     # ... every 4th observed case and every 97th enumerated configuration
     ),
 }
 
@@ -76,13 +105,15 @@ PARAMS = {
 # ---------------------------------------------------------------------------------------------
 # generated modules
 
-def write_gen(wd, par, mode="both", obs_file=None, variant="code", block=64):
+def write_gen(wd, par, mode="both", obs_file=None, variant="code", block=64, law_every=None):
     lines = ["---- MODULE Gen_periodic ----",
              "\\* generated by vf/props/c11.py: tier parameters and recorded observations",
              "EXTENDS Integers, Sequences, TLC, Json"]
     for k in ("CellRadix", "InnerRadix", "RadList"):
         lines.append(f"{k} == {tlc.tla(par[k])}")
     lines += [f"BlockSize == {block}", f'Mode == "{mode}"', f'Variant == "{variant}"']
+    le = law_every if law_every is not None else par.get("LawEvery", (1, 0))
+    lines += [f"LawEvery == {le[0]}", f"LawEveryMC == {le[1]}"]
     if obs_file:
         lines += [f'ObsAll == JsonDeserialize("{obs_file}")', "ObsIdx == ObsAll.idx", "ObsVal == ObsAll.val"]
     else:
@@ -102,7 +133,14 @@ CaseJson(f, p) ==
     LET cf == CaseOf(f, p[1], p[2]) gr == Construct(cf) IN
     [fam |-> f, cell |-> p[1], inner |-> p[2], dim |-> cf.dim, form |-> cf.form, vecs |-> cf.vecs,
      pts |-> cf.pts, w |-> cf.w, c |-> cf.c, r2x2 |-> cf.r2x2, wrap |-> cf.wrap,
-     rc |-> [j \in 1..Len(cf.vecs) |-> <<gr.rc[j].h, gr.rc[j].D>>], wp |-> gr.wp, wf |-> gr.wf]
+     rc |-> [j \in 1..Len(cf.vecs) |-> <<gr.rc[j].h, gr.rc[j].D>>], wp |-> gr.wp, wf |-> gr.wf,
+     \* presentations (Periodic!PresOf): the presented configurations are computed HERE
+     pres |-> PresOf(cf, p[2]),
+     shift |-> IF Len(cf.vecs) = 0 THEN [pts |-> <<>>, c |-> <<>>, T |-> <<>>]
+               ELSE [pts |-> ShiftCfg(cf).pts, c |-> ShiftCfg(cf).c, T |-> ShiftT(cf)],
+     basis |-> BasisVecs(cf.vecs),
+     split |-> SplitOf(cf),
+     pre |-> PreQuery(f, cf, p[2])]
 Emit(f) == LET ok == SelectSeq(Want[f], LAMBDA p : ValidCase(f, p[1], p[2]))
            IN [k \in 1..Min2(Len(ok), Want.count[f]) |-> CaseJson(f, ok[k])]
 ASSUME JsonSerialize("cases.json", [L1 |-> Emit("L1"), L2 |-> Emit("L2"), L3 |-> Emit("L3")])
@@ -156,107 +194,282 @@ def emit_cases(wd, par, rng, counts):
 # ---------------------------------------------------------------------------------------------
 # driving the implementation
 
-def _arrays(case, realvecs_none):
+PRES = ("base", "none", "shift", "basis", "intvecs", "sim", "f32", "split", "session", "int", "argforms")
+SIM_TOL = 1e-6   # integer units; see module docstring (presentations)
+
+
+def _seq(x):
+    """TLC's Json module writes an empty function as {} and a non-empty one as a list."""
+    return list(x) if x else []
+
+
+def _radius(r2):
+    return np.inf if r2 == -1 else (0.0 if r2 == 0 else math.sqrt(r2 / 2.0))
+
+
+def _similarity(case, seed):
+    """Seeded real similarity x -> k x Q (row vectors) for the 'sim' presentation."""
+    fam = FAMS.index(case["fam"])
+    rng = np.random.default_rng([int(seed), fam, int(case["cell"]), int(case["inner"]), 11])
+    dim = case["dim"]
+    k = float(np.exp(rng.uniform(-1.2, 1.2)))
+    if dim == 1:
+        Q = np.array([[1.0 if rng.random() < 0.5 else -1.0]])
+    else:
+        Q, R = np.linalg.qr(rng.normal(size=(dim, dim)))
+        Q = Q * np.sign(np.diag(R))           # Haar distributed; proper and improper rotations
+        if rng.random() < 0.5:
+            Q[:, 0] = -Q[:, 0]
+    return k, Q
+
+
+def _inputs(case, pres, seed):
+    """(points, weights, realvecs, wrap, centre, radius, back) for one presentation of a case;
+    back maps an (m, dim) float array of returned positions to the positions of the base case."""
     dim, nv = case["dim"], len(case["vecs"])
-    pts = np.array(case["pts"], dtype=float).reshape(len(case["pts"]), dim)
-    w = np.array(case["w"], dtype=float)
-    vecs = np.array(case["vecs"], dtype=float).reshape(nv, dim)
-    c = np.array(case["c"], dtype=float)
-    if case["form"] == "flat":
-        pts, vecs, c = pts[:, 0].copy(), vecs[:, 0].copy(), float(c[0])
-    rv = None if (nv == 0 and realvecs_none) else vecs
+    P = np.array(case["pts"], dtype=float).reshape(-1, dim)
+    W = np.array(case["w"], dtype=float)
+    A = np.array(case["vecs"], dtype=float).reshape(nv, dim)
+    C = np.array(case["c"], dtype=float).reshape(dim)
     r2 = case["r2x2"]
-    radius = np.inf if r2 == -1 else (0.0 if r2 == 0 else math.sqrt(r2 / 2.0))
-    return pts, w, rv, c, radius
+    radius = _radius(r2)
+    wrap = bool(case["wrap"])
+    back = lambda X: X
+    extra = {}
+    if pres == "shift":
+        P = np.array(case["shift"]["pts"], dtype=float).reshape(-1, dim)
+        C = np.array(case["shift"]["c"], dtype=float).reshape(dim)
+        T = np.array(case["shift"]["T"], dtype=float).reshape(dim)
+        back = lambda X: X - T
+    elif pres == "basis":
+        A = np.array(case["basis"], dtype=float).reshape(nv, dim)
+    elif pres == "sim":
+        k, Q = _similarity(case, seed)
+        P, A, C = k * (P @ Q), k * (A @ Q), k * (C @ Q)
+        radius = k * radius
+        back = lambda X: (X @ Q.T) / k
+        extra = {"k": k, "Q": Q}
+    flat = case["form"] == "flat"
+    sel = (int(case["inner"]) + int(case["cell"])) % 3
+    if pres == "int":
+        P, W, C = P.astype(np.int64), W.astype(np.int64), C.astype(np.int64)
+    elif pres == "intvecs":
+        A = A.astype(np.int64)
+    elif pres == "f32":
+        P, W, A, C = (x.astype(np.float32) for x in (P, W, A, C))
+    elif pres == "argforms":   # strided / Fortran-ordered arrays, NumPy bool, other scalar kinds
+        big = np.full((len(P), 2 * dim), 99.0)
+        big[:, ::2] = P
+        P = big[:, ::2]
+        bw = np.full(2 * len(W), 99.0)
+        bw[::2] = W
+        W = bw[::2]
+        A = np.asfortranarray(A) if nv else A
+        wrap = np.bool_(wrap)
+        if np.isfinite(radius):
+            radius = int(round(radius)) if r2 in (0, 2, 8, 18) else (np.float64(radius), np.array(radius), np.float64(radius))[sel]
+        else:
+            radius = np.float64(radius)
+    if flat:
+        P, A = P[:, 0], A[:, 0]
+        if pres == "argforms":
+            c = (int(C[0]), np.float64(C[0]), np.array(float(C[0])))[sel]
+        elif pres in ("int",):
+            c = (int(C[0]), np.int64(C[0]), np.array(int(C[0])))[sel]
+        elif pres == "f32":
+            c = np.float32(C[0])
+        else:
+            c = float(C[0])
+        if not P.flags["C_CONTIGUOUS"] and pres != "argforms":
+            P, A = P.copy(), A.copy()
+    else:
+        c = C
+        if pres == "argforms":
+            c = (C.tolist(), tuple(C.tolist()), [int(x) for x in C])[sel]
+    rv = None if pres == "none" else A
+    return P, W, rv, wrap, c, radius, back, extra
 
 
-def _as_int_rows(a, dim):
+def _as_int_rows(a, dim, tol=0.0):
     a = np.asarray(a, dtype=float).reshape(-1, dim)
     r = np.rint(a)
-    if a.size and (not np.all(np.isfinite(a)) or np.max(np.abs(a - r)) > 0):
-        return None
+    if a.size:
+        if not np.all(np.isfinite(a)):
+            return None
+        dev = float(np.max(np.abs(a - r)))
+        if tol:
+            _DEV[1] = max(_DEV[1], dev)
+        if dev > tol:
+            return None
     return r.astype(int).tolist()
 
 
-def observe(case, realvecs_none=False):
-    """One observation of the implementation: ({st, e}, attribute problems)."""
-    from grid.basegrid import LocalGrid
+def _build(P, W, rv, wrap):
     from grid.periodicgrid import PeriodicGrid
+    with warnings.catch_warnings():
+        warnings.simplefilter("ignore")
+        return PeriodicGrid(P, W, rv, wrap=wrap)
+
+
+def _query(g, c, radius):
+    with warnings.catch_warnings():
+        warnings.simplefilter("ignore")
+        return g.get_localgrid(c, radius)
+
+
+def _entries(lg, g, c, dim, back, tol):
+    """Well-formedness of one LocalGrid and its entries [index, integer position, integer weight]
+    in the coordinates of the base case: (status, entries)."""
+    from grid.basegrid import LocalGrid
+    if not isinstance(lg, LocalGrid):
+        return "type:" + type(lg).__name__, []
+    idx = np.asarray(lg.indices)
+    if idx.ndim != 1 or (idx.size and not np.issubdtype(idx.dtype, np.integer)):
+        return "indices:" + str(idx.dtype), []
+    p = np.asarray(lg.points)
+    ww = np.asarray(lg.weights)
+    if not (len(p) == len(ww) == len(idx)) or p.shape[1:] != np.asarray(g.points).shape[1:]:
+        return "shape", []
+    if not np.array_equal(np.asarray(lg.center, dtype=float), np.asarray(c, dtype=float)):
+        return "center", []
+    rows = _as_int_rows(back(np.asarray(p, dtype=float).reshape(-1, dim)), dim, tol)
+    wi = _as_int_rows(ww, 1)
+    if rows is None or wi is None:
+        return "nonint", []
+    return "ok", [[int(i), r, x[0]] for i, r, x in zip(idx.tolist(), rows, wi)]
+
+
+def _select(g, K, sel):
+    """grid[K] with K (0-based positions) in one of the accepted index forms."""
+    n = g.size
+    if len(K) == 1:
+        return g[(K[0], np.int64(K[0]), [K[0]])[sel]]
+    if K == list(range(1, n, 2)):
+        if sel == 0:
+            return g[1::2]
+        if sel == 1:
+            m = np.zeros(n, dtype=bool)
+            m[K] = True
+            return g[m]
+    return g[(K, np.array(K), np.array(K, dtype=np.int32))[sel]]
+
+
+def observe(case, pres="base", seed=0):
+    """One observation of the implementation in one presentation: ({st, e}, other problems).
+    `e` is in the coordinates / numbering of the base case (inverse of the presentation's law)."""
+    if pres is True or pres is False:      # replay files written before the presentations existed
+        pres = "none" if pres else "base"
     dim = case["dim"]
-    pts, w, rv, c, radius = _arrays(case, realvecs_none)
     attr = []
+    P, W, rv, wrap, c, radius, back, extra = _inputs(case, pres, seed)
+    tol = SIM_TOL if pres == "sim" else 0.0
+    keep = [np.array(x, copy=True) for x in (P, W, np.zeros(0) if rv is None else rv, np.asarray(c))]
     try:
-        with warnings.catch_warnings():
-            warnings.simplefilter("ignore")
-            g = PeriodicGrid(pts, w, rv, wrap=case["wrap"])
+        g = _build(P, W, rv, wrap)
     except Exception as e:  # admissible input: the constructor must accept it
         return {"st": f"ctor:{type(e).__name__}", "e": []}, attr
+    if pres in ("base", "none", "sim"):
+        try:
+            attr = _check_attrs(case, g, extra.get("k", 1.0), extra.get("Q"))
+        except Exception as e:
+            attr = [("attrs", f"{type(e).__name__}: {e}")]
     try:
-        attr = _check_attrs(case, g)
-    except Exception as e:
-        attr = [("attrs", f"{type(e).__name__}: {e}")]
-    try:
-        with warnings.catch_warnings():
-            warnings.simplefilter("ignore")
-            lg = g.get_localgrid(c, radius)
+        if pres == "split":
+            ent = []
+            sel = (int(case["inner"]) + int(case["cell"])) % 3
+            for K1 in case["split"]:
+                K = [k - 1 for k in _seq(K1)]
+                if not K:
+                    continue
+                try:
+                    sub = _select(g, K, sel)
+                except Exception as e:
+                    return {"st": f"getitem:{type(e).__name__}", "e": []}, attr
+                if type(sub) is not type(g) or sub.size != len(K):
+                    return {"st": "getitem:result", "e": []}, attr
+                st, e1 = _entries(_query(sub, c, radius), sub, c, dim, back, tol)
+                if st != "ok":
+                    return {"st": st, "e": []}, attr
+                if any(not 0 <= e[0] < len(K) for e in e1):
+                    return {"st": "indices:range", "e": []}, attr
+                ent += [[K[e[0]], e[1], e[2]] for e in e1]
+            return {"st": "ok", "e": ent}, attr
+        if pres == "session":
+            gp0 = np.array(g.points, copy=True)
+            pc = np.array(case["pre"]["c"], dtype=float)
+            pc = float(pc[0]) if case["form"] == "flat" else pc
+            lg0 = _query(g, pc, _radius(case["pre"]["r2x2"]))
+            snap0 = [np.array(x, copy=True) for x in (lg0.points, lg0.weights, lg0.indices)]
+            lg = _query(g, c, radius)
+            snap = [np.array(x, copy=True) for x in (lg.points, lg.weights, lg.indices)]
+            lg2 = _query(g, c, radius)
+            if not all(np.array_equal(x, y) and x.dtype == y.dtype
+                       for x, y in zip(snap, (lg2.points, lg2.weights, lg2.indices))):
+                attr.append(("session:not-repeatable", "the same query on the same grid object gives two different local grids"))
+            if not all(np.array_equal(x, y) for x, y in zip(snap0, (lg0.points, lg0.weights, lg0.indices))) \
+                    or not all(np.array_equal(x, y) for x, y in zip(snap, (lg.points, lg.weights, lg.indices))):
+                attr.append(("session:earlier-result-changed", "a local grid handed out earlier changed when the grid was queried again"))
+            if not np.array_equal(gp0, g.points):
+                attr.append(("session:grid-points-changed", "grid.points changed while the grid was queried"))
+            now = (P, W, np.zeros(0) if rv is None else rv, np.asarray(c))
+            if not all(np.array_equal(x, y) and x.dtype == y.dtype for x, y in zip(keep, now)):
+                attr.append(("session:input-modified", "constructor / query modified an array passed by the caller"))
+        else:
+            lg = _query(g, c, radius)
     except Exception as e:
         return {"st": type(e).__name__, "e": []}, attr
     try:
-        if not isinstance(lg, LocalGrid):
-            return {"st": "type:" + type(lg).__name__, "e": []}, attr
-        idx = np.asarray(lg.indices)
-        if idx.ndim != 1 or (idx.size and not np.issubdtype(idx.dtype, np.integer)):
-            return {"st": "indices:" + str(idx.dtype), "e": []}, attr
-        p = np.asarray(lg.points)
-        ww = np.asarray(lg.weights)
-        if not (len(p) == len(ww) == len(idx)) or p.shape[1:] != np.asarray(pts).shape[1:]:
-            return {"st": "shape", "e": []}, attr
-        if not np.array_equal(np.asarray(lg.center, dtype=float), np.asarray(c, dtype=float)):
-            return {"st": "center", "e": []}, attr
-        rows = _as_int_rows(p, dim)
-        wi = _as_int_rows(ww, 1)
-        if rows is None or wi is None:
-            return {"st": "nonint", "e": []}, attr
-        return {"st": "ok", "e": [[int(i), r, x[0]] for i, r, x in zip(idx.tolist(), rows, wi)]}, attr
+        st, ent = _entries(lg, g, c, dim, back, tol)
+        return {"st": st, "e": ent}, attr
     except Exception as e:
         return {"st": "result:" + type(e).__name__, "e": []}, attr
 
 
-def _check_attrs(case, g):
-    """Constructor attributes against the specification's exact values (emitted by TLC)."""
+def _check_attrs(case, g, k=1.0, Q=None):
+    """Constructor attributes against the specification's exact values (emitted by TLC); for the
+    'sim' presentation x -> k x Q the reciprocal vectors are g_j Q / k, the spacings k s_j, the
+    fractional coordinates are unchanged."""
     bad = []
     dim, nv = case["dim"], len(case["vecs"])
+    if Q is None:
+        Q = np.eye(dim)
+    exact = k == 1.0 and np.array_equal(Q, np.eye(dim))
+    tol = 0.0 if exact else ATOL
     if nv == 0:
         if np.asarray(g.recivecs).size or np.asarray(g.spacings).size or np.asarray(g.frac_intvls).size:
             bad.append(("attrs", "non-empty lattice attributes without lattice vectors"))
-        if not np.array_equal(np.asarray(g.points, dtype=float).reshape(-1, dim), np.array(case["pts"], dtype=float).reshape(-1, dim)):
+        ref = k * (np.array(case["pts"], dtype=float).reshape(-1, dim) @ Q)
+        if not np.array_equal(np.asarray(g.points, dtype=float).reshape(-1, dim), ref):
             bad.append(("points", "points changed without lattice vectors"))
         return bad
     H = np.array([h for h, _ in case["rc"]], dtype=float).reshape(nv, dim)
     D = np.array([d for _, d in case["rc"]], dtype=float)
-    G = H / D[:, None]
+    G = (H / D[:, None]) @ Q / k
     rec = np.asarray(g.recivecs, dtype=float).reshape(nv, dim)
     dev = float(np.max(np.abs(rec - G)))
     _DEV[0] = max(_DEV[0], dev)
     if not dev <= ATOL:
         bad.append(("recivecs", f"recivecs {rec.tolist()} differ from the exact reciprocal vectors {G.tolist()} by {dev:.3g}"))
     sp = np.asarray(g.spacings, dtype=float).reshape(-1)
-    sp_ref = D / np.sqrt(np.sum(H * H, axis=1))
+    sp_ref = k * D / np.sqrt(np.sum(H * H, axis=1))
     dev = float(np.max(np.abs(sp - sp_ref))) if sp.shape == sp_ref.shape else float("inf")
     _DEV[0] = max(_DEV[0], dev if np.isfinite(dev) else 0.0)
     if not dev <= ATOL:
         bad.append(("spacings", f"spacings {sp.tolist()} differ from the exact plane spacings {sp_ref.tolist()}"))
     P = np.asarray(g.points, dtype=float).reshape(-1, dim)
-    WP = np.array(case["wp"], dtype=float).reshape(-1, dim)
+    WP = k * (np.array(case["wp"], dtype=float).reshape(-1, dim) @ Q)
     WF = np.array(case["wf"], dtype=float).reshape(-1, nv)
-    A = np.array(case["vecs"], dtype=float).reshape(nv, dim)
+    A = k * (np.array(case["vecs"], dtype=float).reshape(nv, dim) @ Q)
     if P.shape != WP.shape:
         bad.append(("points", f"points have shape {P.shape}"))
         return bad
     # stored points: the specification's wrapped points; a point exactly on a cell face
     # (fractional numerator 0) may appear on the opposite face (+ a_j), see module docstring
-    K = (P - WP) @ H.T / D
-    ok = np.allclose(K @ A, P - WP, atol=0, rtol=0) and np.all((K == 0) | ((K == 1) & (WF == 0) & bool(case["wrap"])))
+    K = (P - WP) @ G.T
+    K0 = np.rint(K)
+    _DEV[0] = max(_DEV[0], float(np.max(np.abs(K - K0))) if not exact else 0.0)
+    ok = (np.max(np.abs(K - K0)) <= tol and np.max(np.abs(K0 @ A - (P - WP))) <= tol
+          and np.all((K0 == 0) | ((K0 == 1) & (WF == 0) & bool(case["wrap"]))))
     if not ok:
         bad.append(("points", f"stored points {P.tolist()}: specification {WP.tolist()} (wrap={case['wrap']})"))
     fi = np.asarray(g.frac_intvls, dtype=float)
@@ -269,39 +482,48 @@ def _check_attrs(case, g):
     return bad
 
 
-_DEV = [0.0]
+_DEV = [0.0, 0.0]   # worst attribute deviation, worst distance of a back-mapped 'sim' position from an integer point
 
 
-def _worker(chunk):
+def _worker(args):
+    chunk, seed = args
     out = []
     for case in chunk:
-        variants = (False, True) if len(case["vecs"]) == 0 else (False,)
-        for vn in variants:
-            o, attr = observe(case, vn)
-            out.append((case["fam"], case["cell"], case["inner"], vn, o, attr))
-    return out, _DEV[0]
+        for pres in case["pres"]:
+            o, attr = observe(case, pres, seed)
+            out.append((case["fam"], case["cell"], case["inner"], pres, o, attr))
+    return out, list(_DEV)
+
+
+def _pres_suffix(pres):
+    if pres is True or pres == "none":
+        return ":realvecs=None"
+    if pres in (False, None, "base"):
+        return ""
+    return f":pres={pres}"
 
 
 def case_key(case, st="", none=False):
     r = "inf" if case["r2x2"] == -1 else ("0" if case["r2x2"] == 0 else f"sqrt({case['r2x2']}/2)")
     k = (f"r={r}:nv={len(case['vecs'])}:dim={case['dim']}:{case['form']}:wrap={int(bool(case['wrap']))}:"
          f"vecs={json.dumps(case['vecs'], separators=(',', ':'))}:pts={json.dumps(case['pts'], separators=(',', ':'))}:"
-         f"c={json.dumps(case['c'], separators=(',', ':'))}" + (":realvecs=None" if none else ""))
+         f"c={json.dumps(case['c'], separators=(',', ':'))}" + _pres_suffix(none))
     return (st + ":" if st else "") + k
 
 
-def run_observations(cases, tier):
+def run_observations(cases, tier, seed=0):
     flat = [c for f in FAMS for c in cases[f]]
     n = 64
-    chunks = [flat[i::n] for i in range(n)]
+    chunks = [(flat[i::n], seed) for i in range(n)]
     import multiprocessing as mp
     res = []
-    dev = 0.0
-    with mp.get_context("fork").Pool(16) as pool:
+    dev = [0.0, 0.0]
+    with mp.get_context("fork").Pool(8) as pool:
         for part, d in pool.imap(_worker, chunks):
             res += part
-            dev = max(dev, d)
-    res.sort(key=lambda t: (t[0], t[1], t[2], t[3]))
+            dev = [max(a_, b_) for a_, b_ in zip(dev, d)]
+    order = {p: i for i, p in enumerate(PRES)}
+    res.sort(key=lambda t: (t[0], t[1], t[2], order[t[3]]))
     return res, dev
 
 
@@ -328,41 +550,51 @@ def _execute(rep, tier, variant="code", mode="both", tag=None, sample=None):
     bykey = {(c["fam"], c["cell"], c["inner"]): c for f in FAMS for c in cases[f]}
 
     # ---- 2. observations of the implementation ---------------------------------------------
-    obs, dev = run_observations(cases, tier)
-    rep.set("max_attr_deviation", dev)
+    # every case in every admissible presentation (Periodic!PresOf); the results are mapped back
+    # to the base case, so on a correct implementation all presentations of a case give the same
+    # multiset: TLC judges every DISTINCT observation of a case (normally one).
+    obs, dev = run_observations(cases, tier, rep.seed)
+    rep.set("max_attr_deviation", dev[0])
+    rep.set("max_sim_position_deviation", dev[1])
     idx = {f: [] for f in FAMS}
     val = {f: [] for f in FAMS}
     meta = {f: [] for f in FAMS}
-    for f, cell, inner, none, o, attr in obs:
+    npres = dict.fromkeys(PRES, 0)
+    groups = {}
+    for f, cell, inner, pres, o, attr in obs:
         case = bykey[(f, cell, inner)]
-        idx[f].append([cell, inner])
-        val[f].append(o)
-        meta[f].append((case, none))
-        rep.evaluated(1, (f, cell, inner, none))
+        npres[pres] += 1
+        rep.evaluated(1, (f, cell, inner, pres))
         for what, msg in attr:
-            rep.violation(f"attr:{what}:" + case_key(case, none=none), msg, {"case": case, "realvecs_none": none})
+            rep.violation(f"attr:{what}:" + case_key(case, none=pres), msg, {"case": case, "pres": pres})
+        canon = {"st": o["st"], "e": sorted(o["e"])}
+        groups.setdefault((f, cell, inner), {}).setdefault(json.dumps(canon), (canon, []))[1].append(pres)
+    for (f, cell, inner), g in groups.items():
+        case = bykey[(f, cell, inner)]
+        for canon, names in g.values():
+            idx[f].append([cell, inner])
+            val[f].append(canon)
+            meta[f].append((case, names))
+    rep.set("presentations", npres)
+    rep.set("distinct_observations_judged", sum(len(v) for v in val.values()))
     (wd / "obs.json").write_text(json.dumps({"idx": idx, "val": val}))
     for f in FAMS:
         if val[f]:
             rep.sample({"case": {k: meta[f][0][0][k] for k in ("dim", "form", "vecs", "pts", "w", "c", "r2x2", "wrap")},
-                        "observed": val[f][0]})
+                        "presentations": meta[f][0][1], "observed": val[f][0]})
     for f in FAMS:  # a few larger ones
         big = [i for i, v in enumerate(val[f]) if len(v["e"]) >= 6][:2]
         for i in big:
             rep.sample({"case": {k: meta[f][i][0][k] for k in ("dim", "form", "vecs", "pts", "w", "c", "r2x2", "wrap")},
-                        "observed": val[f][i]})
+                        "presentations": meta[f][i][1], "observed": val[f][i]})
 
     # ---- 3. TLC: exhaustive model + judge of the observations -------------------------------
     write_gen(wd, par, mode=_mode, obs_file="obs.json", variant=_variant)
-    (wd / "MC_Periodic.cfg").write_text("SPECIFICATION Spec\n" + "".join(f"INVARIANT {i}\n" for i in INVARIANTS))
-    res = tlc.run_tlc("Periodic", wd / "MC_Periodic.cfg", wd, workers=16, timeout=3000, coverage=(tier == "quick")).require_ok("MC_Periodic")
+    (wd / "MC_Periodic.cfg").write_text(CFG)
+    # (no action coverage: TLC's cost model expands every operator per call site and runs out of memory
+    #  on the presentation laws; "every action was taken" is established from the state counts below)
+    res = tlc.run_tlc("Periodic", wd / "MC_Periodic.cfg", wd, workers=8, timeout=3000).require_ok("MC_Periodic")
     rep.tlc(res, "MC_Periodic")
-    if res.status == "ok" and tier == "quick":   # vacuity guard (action coverage is collected in the quick tier only: it costs ~50% CPU): every action of the model was taken
-        need = {"mc": ("PickCell", "PickBlock", "PickCase"), "obs": ("PickObsBlock", "PickObs")}
-        acts = sum((need[m] for m in need if _mode in (m, "both")), ()) + ("DoConstruct", "DoQuery")
-        idle = [a for a in acts if res.coverage.get(a, (0, 0))[0] == 0]
-        if idle:
-            raise tlc.MachineryError(f"Periodic: actions never taken: {idle} (coverage {res.coverage})")
     if res.status == "violation":
         st = tlc.last_state(res)
         cf = st.get("s_cfg")
@@ -371,12 +603,12 @@ def _execute(rep, tier, variant="code", mode="both", tag=None, sample=None):
                            f"definition of the image set); configuration {cf}", st)
     for t in tlc.tagged(res.stdout, "MISMATCH"):
         _, f, cell, inner, k, st, missing, extra, nobs, nexp = t
-        case, none = meta[f][k - 1]
-        rep.violation(case_key(case, st, none),
-                      f"get_localgrid: status {st}; images required by the specification but not returned: {missing}; "
+        case, names = meta[f][k - 1]
+        rep.violation(case_key(case, st, names[0]),
+                      f"get_localgrid (presentations {names}): status {st}; images required by the specification but not returned: {missing}; "
                       f"returned but not in the specification: {extra}; returned {nobs} entries, specification has {nexp} "
-                      f"(entries are <<index, position, weight>>)",
-                      {"case": case, "realvecs_none": none, "observed": val[f][k - 1], "missing": missing, "extra": extra,
+                      f"(entries are <<index, position, weight>>, mapped back to the base presentation)",
+                      {"case": case, "pres": names[0], "presentations": names, "observed": val[f][k - 1], "missing": missing, "extra": extra,
                        "params": {k_: par[k_] for k_ in ("CellRadix", "InnerRadix", "RadList")}})
     # non-vacuity: every situation named in the property occurs among the judged cases
     names = ["many_images", "empty_sphere", "wrap_moves", "outside_cell_unwrapped", "partial_skew",
@@ -395,20 +627,29 @@ def _execute(rep, tier, variant="code", mode="both", tag=None, sample=None):
     if res.status == "ok" and _mode != "mc" and not sample:
         if judged != nobs:
             raise tlc.MachineryError(f"TLC judged {judged} of {nobs} observations")
-        empty = [n_ for n_, v in tot.items() if v == 0]
+        empty = [n_ for n_, v in tot.items() if v == 0] + [n_ for n_, v in npres.items() if v == 0]
         if empty:
             raise tlc.MachineryError(f"vacuous tier bounds: situations never exercised: {empty}")
     rep.set("traces_validated_against_impl", judged)
     if res.status == "ok" and _mode == "both":
         block = 64
         aux = 1 + sum(ncells[f] * (1 + -(-_prod(par["InnerRadix"][f]) // block)) for f in FAMS)
-        aux += sum(-(-len(val[f]) // block) + 3 * len(val[f]) for f in FAMS)
+        aux += sum(-(-len(val[f]) // block) + 3 * len(val[f]) for f in FAMS)   # (observation states are distinct per k)
         rep.set("configurations_in_model", (res.distinct - aux) // 3)
         rep.set("valid_cells", ncells)
+        # vacuity guard (both tiers): the run consists of 1 initial state, the cell / block states, three
+        # states (case, built, done) per enumerated configuration and per judged observation; every valid
+        # cell has at least one valid configuration - so PickCell, PickBlock, PickCase, DoConstruct, DoQuery
+        # were taken (PickObsBlock / PickObs: judged == nobs above)
+        if (res.distinct - aux) % 3 != 0 or (res.distinct - aux) // 3 < sum(ncells.values()) or min(ncells.values()) < 1:
+            raise tlc.MachineryError(f"Periodic: unexpected state count {res.distinct} (auxiliary {aux}, valid cells {ncells})")
     rep.set("exhaustive", True)
-    rep.set("rule", "one case = one call PeriodicGrid(points, weights, realvecs, wrap).get_localgrid(center, radius) on a "
-                    "configuration decoded by TLC, its result judged by TLC against Periodic!DeclSet; distinct = distinct "
-                    "(family, cell number, inner number, realvecs=None variant)")
+    rep.set("rule", "one case = one presentation (Periodic!PresOf: base, realvecs=None, real similarity, lattice shifts, other "
+                    "basis, sub-grids, session, dtypes / argument forms) of a configuration decoded by TLC, run through "
+                    "PeriodicGrid(points, weights, realvecs, wrap).get_localgrid(center, radius), mapped back and judged by TLC "
+                    "against Periodic!DeclSet; distinct = distinct (family, cell number, inner number, presentation)")
+    rep.assume("real similarities, far lattice shifts and other bases are related to the base configuration by the laws "
+               "SimLaw / ScaleLaw / ShiftLaw / BasisLaw / SplitLaw, which TLC checks on their integer instances")
     rep.assume("the k-d tree ball query is modelled as exact ball membership (integer coordinates, 2r^2 odd)")
     rep.assume("the SVD pseudo-inverse is modelled as (A A^T)^-1 A in exact arithmetic; bound to the code by the recivecs/spacings attribute checks")
 
@@ -461,11 +702,35 @@ MUTANTS = [
      "sphere displaced in the wrong direction"),
     ("wrap_sign_1d", "__init__", "points = points + frac_shift * realvecs", "points = points - frac_shift * realvecs",
      "1-D wrap shifts the points the wrong way (flat 1-D arrays with wrap only)"),
+    # ---- presentations (audit round 4): each of these passes the base presentation
+    ("wrap_in_place", "__init__", "points = points + frac_shift @ realvecs", "points += frac_shift @ realvecs",
+     "wrap writes into the caller's array: session (input modified), int (casting error)"),
+    ("ranges_memoised", "get_localgrid", "ilc_iterator = itertools.product(",
+     "if getattr(self, '_rng', None) is None:\n        self._rng = (ilc_min, ilc_max)\n    ilc_min, ilc_max = self._rng\n"
+     "    ilc_iterator = itertools.product(",
+     "translation ranges of the first query kept for later queries: session"),
+    ("getitem_drops_lattice", "__getitem__", "np.array(self.weights[index]),\n            self.realvecs,",
+     "np.array(self.weights[index]),", "grid[K] forgets the lattice vectors: split"),
+    ("getitem_int_drops_lattice", "__getitem__", "np.array([self.weights[index]]),\n            self.realvecs,",
+     "np.array([self.weights[index]]),", "grid[i] (integer index) forgets the lattice vectors: split with one selected point"),
+    ("centre_truncated", "get_localgrid", "center = np.asarray(center)", "center = np.asarray(center).astype(int)",
+     "centre truncated to integers (all integer-valued data unaffected): sim"),
+    ("delta_rounded", "get_localgrid", "delta = ilc @ self._realvecs", "delta = np.rint(ilc @ self._realvecs)",
+     "lattice translation rounded to integers: sim"),
+    ("far_centre_clamped", "get_localgrid", "slack = 1e-9", "slack = 1e-9\n    frac_center = np.clip(frac_center, -100, 100)",
+     "fractional centre clamped to 100 cells: shift"),
+    ("radius_must_be_float", "get_localgrid", "if not np.isfinite(radius):",
+     "if not isinstance(radius, float) or not np.isfinite(radius):", "Python int / 0-d array radius rejected: argforms"),
+    ("float64_only", "__init__", "assert recivecs.shape == realvecs.shape",
+     "assert recivecs.shape == realvecs.shape and recivecs.dtype == np.float64", "float32 lattice vectors rejected: f32"),
+    ("spacing_floor", "__init__", "self._spacings = spacings", "self._spacings = np.maximum(spacings, 0.4)",
+     "plane spacings below 0.4 raised to 0.4 (fewer translations; the quick tier's own cells have spacings >= 0.44): basis"),
     ("ceil_becomes_floor_plus_one", "get_localgrid", "ilc_min = np.ceil(", "ilc_min = 1 + np.floor(",
      "EQUIVALENT mutant (differs only when the bound is exactly an integer, where the extra sphere is empty): must NOT be reported"),
 ]
 SPEC_VARIANTS = [("veclen", "algorithm with spacing = |a_j|"), ("plusdelta", "algorithm storing p + delta"),
-                 ("stalefrac", "algorithm with fractional interval taken before wrapping")]
+                 ("stalefrac", "algorithm with fractional interval taken before wrapping"),
+                 ("clampfc", "algorithm with the centre's fractional coordinate clamped to 100 cells (refuted by ShiftLaw only)")]
 
 
 def selftest(tier: str = "quick") -> int:
@@ -486,7 +751,8 @@ def selftest(tier: str = "quick") -> int:
         finally:
             setattr(PeriodicGrid, meth, orig)
         results.append((name, len(v), v[0]["key"] if v else "", what))
-        print(f"selftest mutant {name}: {'KILLED' if v else 'survived'} ({len(v)} violations) {v[0]['key'][:110] if v else ''}")
+        by = sorted({(x.get("case") or {}).get("pres", "model") for x in v})
+        print(f"selftest mutant {name}: {'KILLED' if v else 'survived'} ({len(v)} violations; presentations {by}) {v[0]['key'][:110] if v else ''}")
     for var, what in SPEC_VARIANTS:
         rep = _Quiet(PROP, "quick", "model_checking")
         _execute(rep, "quick", variant=var, mode="obs", tag="selftest", sample=small)
@@ -509,20 +775,22 @@ def replay(path: str) -> int:
     if not (isinstance(case, dict) and "fam" in case):
         print("replay: model-level violation; rerunning the check")
         return run(v.get("tier", "quick"))
-    none = bool(c.get("realvecs_none", False))
-    o, attr = observe(case, none)
+    pres = c.get("pres") or ("none" if c.get("realvecs_none") else "base")
+    case.setdefault("pres", [pres])
+    o, attr = observe(case, pres, int(v.get("seed", 0)))
+    o = {"st": o["st"], "e": sorted(o["e"])}
     par = c.get("params") or PARAMS[v.get("tier", "quick")]   # numbering of the run that reported it
     wd = tlc.scratch(f"{PROP}-replay")
     obs = {"idx": {f: [] for f in FAMS}, "val": {f: [] for f in FAMS}}
     obs["idx"][case["fam"]].append([case["cell"], case["inner"]])
     obs["val"][case["fam"]].append(o)
     (wd / "obs.json").write_text(json.dumps(obs))
-    write_gen(wd, par, mode="obs", obs_file="obs.json")
-    (wd / "MC_Periodic.cfg").write_text("SPECIFICATION Spec\n" + "".join(f"INVARIANT {i}\n" for i in INVARIANTS))
+    write_gen(wd, par, mode="obs", obs_file="obs.json", law_every=(1, 0))
+    (wd / "MC_Periodic.cfg").write_text(CFG)
     res = tlc.run_tlc("Periodic", wd / "MC_Periodic.cfg", wd, workers=1, timeout=600).require_ok("MC_Periodic")
     mism = tlc.tagged(res.stdout, "MISMATCH")
     if res.status == "ok" and len(tlc.tagged(res.stdout, "FLAGS")) != 1:
         raise tlc.MachineryError("replay: TLC did not judge the case (configuration numbering changed?)")
-    print("replay:", case_key(case, none=none), "-> observed", o, "attribute problems", attr,
+    print("replay:", case_key(case, none=pres), "-> observed", o, "other problems", attr,
           "TLC:", res.status, "mismatch" if mism else "agrees with Periodic!DeclSet")
     return 1 if (mism or attr or res.status != "ok") else 0
